@@ -70,10 +70,11 @@ DED = {
          "k-1 (TIGHT) and <= the same expression for every m (LOWER); backward step - one candidate index per epoch, chained through "
          "the back-pointers, starting from a minimum of the last row (numpy.argmin trusted); Qlog / Plog verified with the user "
          "functions Q / P abstract; lemma sequence-lower-bound (induction over an arbitrary state sequence): LOWER implies every "
-         "sequence costs at least TAB_VAL at its last state, so the decoded sequence (cost = TAB_VAL by TIGHT) is optimal.",
-         "compilation of STATES / OBS, table initialisation, storing hmm_inference / hmm_cost, the equivalence minimum -log cost <=> "
-         "maximum likelihood, and 'log inputs give the same optimum' are bounded only. ASSUMED: accumulated costs stay below the 1e300 "
-         "sentinel."),
+         "sequence costs at least TAB_VAL at its last state, so the decoded sequence (cost = TAB_VAL by TIGHT) is optimal; lemma "
+         "log-likelihoods-give-the-same-costs: a model supplied as logarithms log(f + 1e-300) has the same cost function as the one "
+         "supplied as likelihoods f, and the contracts mention the model only through its costs.",
+         "compilation of STATES / OBS, table initialisation, storing hmm_inference / hmm_cost and the equivalence minimum -log cost <=> "
+         "maximum likelihood are bounded only. ASSUMED: accumulated costs stay below the 1e300 sentinel."),
  "C11": ("segmentation.split (feature-name form, limit = 0): with a ghost list E of piece ends, piece j is exactly the slice "
          "(E[j-1], E[j]] of the track's observation list, pieces other than the last end at a marked observation and contain no other "
          "marked observation, the last piece ends at the last observation, no marker => empty collection, feature table carried; "
